@@ -492,7 +492,9 @@ func genC05Record(r *Rand, id int, hosts []string) map[string]string {
 	case 4:
 		// more significant digits than a 32-bit float holds (epoch seconds, byte
 		// counts): exact in the float64 arithmetic of the documented semantics
-		rec["m"] = PickOf(r, "1633158729", "16777217", "123456.789", "2147483649", "-40000001", strconv.Itoa(1600000000+r.Intn(90000000)))
+		rec["m"] = PickOf(r, "1633158729", "16777217", "123456.789", "2147483649", "-40000001", strconv.Itoa(1600000000+r.Intn(90000000)),
+			// zero-padded decimals (a field of fixed width): 100, 250, 17 - not octal
+			"0100", "0250", "0017", "00042")
 	default:
 		rec["m"] = strconv.Itoa(1 + r.Intn(1000))
 	}
